@@ -29,6 +29,22 @@ func callPool(r *rng, n int) []string {
 			pool = append(pool, decCase("decode", "000", "-", "-", dc.data))
 		}
 	}
+	// the same component-bearing files (their records carry byte-array fields) with a wrong file CRC
+	// and cut short: Decode returns the partial File together with the error, and that File must
+	// stay what it was when later calls decode other byte arrays
+	for i, c := range compFiles {
+		if i >= n/2 {
+			break
+		}
+		dc, _ := parseDecCase(c)
+		if len(dc.data) < 20 {
+			continue
+		}
+		bad := append([]byte{}, dc.data...)
+		bad[len(bad)-1] ^= 0xFF
+		pool = append(pool, decCase([]string{"decode", "chained"}[i%2], "000", "-", "-", bad))
+		pool = append(pool, decCase("decode", "000", "-", "-", dc.data[:len(dc.data)-3]))
+	}
 	// streams whose records use the reference time before (or without) setting it: any decoder
 	// state surviving a call shows in their timestamps
 	for i, c := range genTimestamps(r, n).Cases {
